@@ -61,7 +61,8 @@ theorem terminal_stop_reports_status_two (cfg : DV.LoopEv.CfgEv ℚ) (s : DV.Loo
     (DV.LoopEv.integrateEv cfg s evs kn nEvents target orc fuel).sys.status = 2 :=
   (DVP.LoopEv.integrateEv_outcome cfg s evs kn nEvents target orc fuel hne).2.2.1 hstop hok
 
-/-- **The stop lands on the event and nothing beyond it is kept.**  After a terminal stop the recorded samples
+/-- **The stop lands on the event and nothing beyond it is kept.**  The time `root` the call stops at is the located root of a
+monitored event of some step that is terminal and passed the direction mask.  After a terminal stop the recorded samples
 are: the samples `s'.ts` recorded before the event step (they extend the samples at the start of the call; the end
 of the event step is NOT among them), followed by the steps `news` of the nested `integrate(root)` — which move
 strictly toward the event time `root`, never pass it, and, when the nested loop ends through its guard, end within
@@ -72,16 +73,18 @@ theorem terminal_stop_lands_on_event (cfg : DV.LoopEv.CfgEv ℚ) (heps : 0 < cfg
     (hnest : ∀ k t h, DVP.Loop.OracleOK (orc k t h).nested ∧ DVP.Loop.CbsNonzero (orc k t h).nested ∧ DVP.Loop.NoCbAssign (orc k t h).nested)
     (hstop : (DV.LoopEv.integrateEv cfg s evs kn nEvents target orc fuel).stopped = true) :
     ∃ (s' : DV.Loop.Sys ℚ) (root : ℚ) (N : DV.Loop.LoopOut ℚ) (news : List ℚ),
+      (∃ (k : Nat) (t h : ℚ) (x : Nat × Probe ℚ), x.2.terminal = true ∧ x.2.active = true ∧
+        (orc k t h).probes[x.1]? = some x.2 ∧ x.2.root = root) ∧
       (∃ mid, s'.ts = mid ++ s.ts) ∧
       (DV.LoopEv.integrateEv cfg s evs kn nEvents target orc fuel).sys.ts = news.reverse ++ s'.ts ∧
       DVP.Loop.Steps root s'.tcur news ∧
       (DV.LoopEv.integrateEv cfg s evs kn nEvents target orc fuel).nestedReqs = N.reqs ∧
       (N.guardExit = true → |root - (DV.LoopEv.integrateEv cfg s evs kn nEvents target orc fuel).sys.tcur| < max cfg.loop.eps cfg.loop.tolEps) := by
-  obtain ⟨s', root, k', t', h', nf, hmid, hne', hdt', e1, e2⟩ :=
+  obtain ⟨s', root, k', t', h', nf, hmid, hne', hdt', e1, e2, x, hx1, hx2, hx3, hx4⟩ :=
     (DVP.LoopEv.integrateEv_outcome cfg s evs kn nEvents target orc fuel hne).2.2.2 hstop
   obtain ⟨ho, hc, hn⟩ := hnest k' t' h'
   obtain ⟨news, g1, g2, g3⟩ := DVP.C03.integrate_covers_span cfg.loop heps htol hhalf s' root (orc k' t' h').nested nf hdt' ho hc (Or.inl hn)
-  refine ⟨s', root, DV.Loop.integrate cfg.loop s' root (orc k' t' h').nested nf, news, hmid, by rw [e1, g1], g2, e2, fun hg => ?_⟩
+  refine ⟨s', root, DV.Loop.integrate cfg.loop s' root (orc k' t' h').nested nf, news, ⟨k', t', h', x, hx1, hx2, hx3, hx4⟩, hmid, by rw [e1, g1], g2, e2, fun hg => ?_⟩
   have := g3 hg
   -- the current time only depends on the (non-empty) list of samples
   have htc : (DV.LoopEv.integrateEv cfg s evs kn nEvents target orc fuel).sys.tcur =
